@@ -9,6 +9,7 @@ ASSUME = ['observers dial every voter; a voter numbers its observers by a counte
 MONS = (('mc.monitors', 'ObserverMonitor', {}),
         ('mc.closing', 'ConvergenceMonitor', dict(prop='C18', variants=('all',), every=7)))
 CL = ('C01', 'C02', 'C03', 'C04', 'C18')
+DYN = (('mc.monitors_c10', 'MembershipMonitor', {}), ('mc.monitors', 'ExceptionMonitor', dict(prop='C18')))
 
 
 def specs(tier):
@@ -26,10 +27,20 @@ def specs(tier):
           extra_monitors=(MONS[0], ('mc.monitors', 'ExceptionMonitor', dict(prop='C18')))),
         J('fresh2+1-nowait:S1E1H1', 'fresh', dict(n=2, observers=1, wait_leader=False), dict(S=1, E=1, H=1)),
         J('fresh2+3:E1', 'fresh', dict(n=2, observers=3), dict(E=1)),
+        # membership changes while a read-only node follows: it replays the add/remove entries like any follower;
+        # and a snapshot taken while a read-only node is connected must not list it as a member
+        J('m-steady2+1+spare:M1H1S1', 'steady', dict(n=2, observers=1, dyn=True, spare=1), dict(M=1, H=1, S=1), dict(k=0),
+          clauses=CL + ('C10',), extra_monitors=MONS[:1] + DYN),
+        J('m-lagsnap3+1:H2R1', 'lagging_snap', dict(n=3, observers=1, dyn=True), dict(H=2, R=1),
+          clauses=CL + ('C10',), extra_monitors=MONS[:1] + DYN),
+        J('m-journal-steady2+1:K1P1H2', 'steady', dict(n=2, observers=1, dyn=True, journal='file+dump'), dict(K=1, P=1, H=2), dict(k=1),
+          clauses=CL + ('C10',), extra_monitors=MONS[:1] + DYN),
     ]
     if not q:
         js += [
             J('fresh3+1:E1H1S1', 'fresh', dict(n=3, observers=1), dict(E=1, H=1, S=1)),
+            J('m-steady2+1+spare:M1H2S1', 'steady', dict(n=2, observers=1, dyn=True, spare=1), dict(M=1, H=2, S=1), dict(k=0),
+              clauses=CL + ('C10',), extra_monitors=MONS[:1] + DYN),
             J('steady2+2:H2S2X2R2', 'steady', dict(n=2, observers=2), dict(H=2, S=2, X=2, R=2), dict(k=1)),
             J('steady3+2:H1S1X2R1', 'steady', dict(n=3, observers=2), dict(H=1, S=1, X=2, R=1), dict(k=1)),
         ]
